@@ -875,6 +875,12 @@ class Lib:
 
     def value_attr(self, it, obj, name, node):
         tbl = None
+        extra = getattr(obj, 'attrs', None)
+        if extra is not None and name in extra:
+            v = extra[name]
+            if isinstance(v, VFunc):
+                return VBound(obj, v) if getattr(v, 'bind', True) else v
+            return v
         if isinstance(obj, VStr):
             tbl = self.str_methods
         elif isinstance(obj, VBytes):
